@@ -25,6 +25,7 @@ class HippoLLSDBaseFormatter(base_llsd.base.LLSDBaseFormatter):
         self.type_map[Vector4] = self.TUPLECOORD
         self.type_map[Quaternion] = self.TUPLECOORD
         self.type_map[datetime.datetime] = self.AWARE_DATE
+        self.type_map[JankStringyBytes] = self.BINARY
 
     def TUPLECOORD(self, v: TupleCoord):
         return self.ARRAY(v.data())
